@@ -95,6 +95,67 @@ def check_segment(name, rot, acc, only=None, scale=1.0):
                 break
 
 
+# ---------------------------------------------------------------- operation sequences on one segment
+
+SEQ_OPS = [('rev',)] + [('crop', a, b) for a, b in ((0.0, 0.5), (0.25, 0.75), (0.5, 1.0), (1.0 / 3.0, 0.7))] + \
+          [('split0', t) for t in (0.25, 0.5, 0.7)] + [('split1', t) for t in (0.25, 0.5, 0.7)]
+
+
+def apply_op(seg, a, b, op):
+    """the real operation on the real segment, and the documented parameter map composed onto
+    cur(u) = orig(a + b*u)"""
+    if op[0] == 'rev':
+        return seg.reversed(), a + b, -b
+    if op[0] == 'crop':
+        return seg.cropped(op[1], op[2]), a + b * op[1], b * (op[2] - op[1])
+    if op[0] == 'split0':
+        return seg.split(op[1])[0], a, b * op[1]
+    return seg.split(op[1])[1], a + b * op[1], b * (1 - op[1])
+
+
+def check_sequences(name, rot, depth, acc, only=None):
+    """every sequence of up to `depth` operations (reverse, crop, first/second half of a split) applied
+    one after another starting from a library segment: the result must trace orig(a + b*u) for the
+    composed map - states reached through other operations are the inputs here, not only fresh segments"""
+    orig = AB.make(name, 1.0, rot=rot)
+    kind = type(orig).__name__[0]
+    size = seg_size(orig)
+    tol = tol_of(orig, size)
+    frontier = [((), orig, 0.0, 1.0)]
+    for d in range(1, depth + 1):
+        nxt = []
+        for hist, seg, a, b in frontier:
+            for oi, op in enumerate(SEQ_OPS):
+                h = hist + (oi,)
+                if only is not None and tuple(only[:len(h)]) != h:
+                    continue
+                c = {'what': 'sequence', 'shape': name, 'rot': rot, 'ops': list(h)}
+                acc.case(c, cls='%s/sequence/depth%d' % (kind, d))
+                acc.transitions += 1
+                sig = {'kind': kind, 'last_op': op[0], 'previous_op': SEQ_OPS[hist[-1]][0] if hist else None}
+                r = outcome(lambda: apply_op(seg, a, b, op))
+                if r[0] != 'ok':
+                    acc.violation('raises', dict(sig, exc=r[1]), c, observed=r)
+                    continue
+                cur, a2, b2 = r[1]
+                if type(cur) is not type(orig):
+                    acc.violation('sequence_type', sig, c, observed=type(cur).__name__)
+                    continue
+                bad = None
+                for u in US:
+                    want = orig.point(min(max(a2 + b2 * u, 0.0), 1.0))
+                    if not abs(cur.point(u) - want) <= tol * d:
+                        bad = (u, cur.point(u), want)
+                        break
+                if bad:
+                    acc.violation('sequence_map', sig, c, observed=bad[1], expected=bad[2],
+                                  detail='u=%r composed map a=%r b=%r' % (bad[0], a2, b2))
+                    continue
+                nxt.append((h, cur, a2, b2))
+        frontier = nxt
+        acc.states += len(nxt)
+
+
 # ---------------------------------------------------------------- paths
 
 def chain(names, close_with=None):
@@ -131,6 +192,20 @@ PATHS = {
 }
 
 
+def _retrace():
+    a, b = 0j, 3 + 1j
+    return [Line(a, b), Line(b, a), Line(a, b)]
+
+
+def _retrace_curves():
+    c = CubicBezier(0j, 1 + 2j, 3 + 2j, 4 + 0j)
+    return [c, c.reversed(), CubicBezier(0j, 1 + 2j, 3 + 2j, 4 + 0j), Line(4 + 0j, 0j), CubicBezier(0j, 1 + 2j, 3 + 2j, 4 + 0j)]
+
+
+# paths that contain EQUAL segments (they retrace themselves): anything that looks a segment up by value goes wrong here
+RAW = {'raw_retrace_lines': (_retrace, False), 'raw_retrace_curves': (_retrace_curves, False)}
+
+
 def path_T_alphabet(p):
     ls = [s.length() for s in p]
     tot = sum(ls)
@@ -139,7 +214,8 @@ def path_T_alphabet(p):
     for l in ls[:-1]:
         acc_ += l / tot
         b.append(acc_)
-    return sorted(set([0.0, 1.0, 0.1, 0.37, 0.5, 0.77, 0.9] + b))
+    near = [x for j in b for x in (j - 1e-6, j - 3e-9, j + 3e-9)] + [3e-9, 1 - 3e-9]
+    return sorted(set([0.0, 1.0, 0.1, 0.37, 0.5, 0.77, 0.9] + b + near))
 
 
 POOL4 = ['L_diagonal', 'Q_generic', 'C_arch', 'A_ellipse_3to1']
@@ -147,7 +223,7 @@ POOL4 = ['L_diagonal', 'Q_generic', 'C_arch', 'A_ellipse_3to1']
 
 def all_paths(tier):
     out = dict(PATHS)
-    n = 3
+    n = 4 if tier == 'thorough' else 3
     for L in range(1, n + 1):
         for w in itertools.product(range(4), repeat=L):
             for close in (None, 'L', 'C'):
@@ -158,8 +234,11 @@ def all_paths(tier):
 
 
 def check_path(pname, acc, only=None):
-    names, close = all_paths('thorough')[pname]
-    segs = chain(names, close)
+    if pname in RAW:
+        segs, close = RAW[pname][0](), None
+    else:
+        names, close = all_paths('thorough')[pname]
+        segs = chain(names, close)
     p = Path(*segs)
     size = max(seg_size(s) for s in segs) * len(segs)
     has_arc = any(isinstance(s, Arc) for s in segs)
@@ -167,7 +246,11 @@ def check_path(pname, acc, only=None):
     closed = close is not None
     base = {'what': 'path', 'path': pname}
     sig0 = {'closed': closed, 'has_arc': has_arc}
+    if pname in RAW:
+        sig0['equal_segments'] = True
     Ts = path_T_alphabet(p)
+    ls_ = [s_.length() for s_ in p]
+    joints = [sum(ls_[:i + 1]) / sum(ls_) for i in range(len(ls_) - 1)]
     if only in (None, 'reversed'):
         acc.case(dict(base, op='reversed'), cls='path/reversed')
         r = outcome(lambda: p.reversed())
@@ -197,10 +280,12 @@ def check_path(pname, acc, only=None):
             continue
         if T0 == 1 and T1 == 0:
             continue
-        atjoint = any(abs(T - b_) < 1e-15 for T in (T0, T1) for b_ in Ts if b_ not in (0.0, 1.0, 0.1, 0.37, 0.5, 0.77, 0.9))
+        atjoint = any(abs(T - b_) < 1e-15 for T in (T0, T1) for b_ in joints)
+        nearjoint = (not atjoint) and any(abs(T - b_) < 2e-6 for T in (T0, T1) for b_ in joints + [0.0, 1.0] if T not in (0.0, 1.0))
+        tiny = abs(T1 - T0) < 1e-5
         cls = 'path/cropped/%s/%s' % ('wrap' if wrap else 'plain', 'joint' if atjoint else 'inside')
         acc.case(c, cls=cls)
-        sig = dict(sig0, wrap=wrap, at_joint=atjoint)
+        sig = dict(sig0, wrap=wrap, at_joint=atjoint, near_joint=nearjoint, tiny_window=tiny)
         r = outcome(lambda: p.cropped(T0, T1))
         if r[0] != 'ok':
             acc.violation('raises', dict(sig, op='cropped', exc=r[1]), c, observed=r)
@@ -209,7 +294,9 @@ def check_path(pname, acc, only=None):
         if len(cp) == 0:
             acc.violation('path_cropped_empty', sig, c)
             continue
-        if not (abs(cp[0].start - p.point(T0)) <= tol and abs(cp[-1].end - p.point(T1)) <= tol):
+        # an end within 1e-8 (in t) of a joint is snapped onto the joint by design
+        etol = max(tol, 2e-8 * size)
+        if not (abs(cp[0].start - p.point(T0)) <= etol and abs(cp[-1].end - p.point(T1)) <= etol):
             acc.violation('path_cropped_endpoints', sig, c, observed=[cp[0].start, cp[-1].end], expected=[p.point(T0), p.point(T1)])
             continue
         jt = 0 if not has_arc else tol
@@ -225,14 +312,17 @@ def check_path(pname, acc, only=None):
             continue
         want = rl[1]
         got = cp.length()
-        if not abs(got - want) <= 1e-6 * max(want, 1e-300) + 1e-9 * size:
+        # next to a joint each end may have been snapped by up to 1e-8 in t (by design)
+        if not abs(got - want) <= 1e-6 * max(want, 1e-300) + (4e-8 if (nearjoint or atjoint) else 1e-9) * size:
             acc.violation('path_cropped_length', sig, c, observed=got, expected=want)
 
 
 def shards(tier, seed):
     out = [{'what': 'segment', 'shape': n, 'rot': r, 'scale': sc} for n in (list(AB.LINES) + list(AB.QUADS) + list(AB.CUBICS) + list(AB.ARCS))
            for r in (ROTS + [90] if tier == 'quick' else ROTS + [90, 211, 180]) for sc in ([1.0, 1e-3] if tier == 'quick' else [1.0, 1e-3, 1e3, 1e6])]
-    out += [{'what': 'path', 'path': n} for n in all_paths(tier)]
+    out += [{'what': 'path', 'path': n} for n in list(all_paths(tier)) + list(RAW)]
+    out += [{'what': 'sequence', 'shape': n, 'rot': r, 'depth': 2 if tier == 'quick' else 4}
+            for n in (list(AB.LINES) + list(AB.QUADS) + list(AB.CUBICS) + list(AB.ARCS)) for r in ([0] if tier == 'quick' else [0, 37, 211])]
     return out
 
 
@@ -240,6 +330,8 @@ def run_shard(desc, tier, seed):
     acc = core.Acc()
     if desc['what'] == 'segment':
         check_segment(desc['shape'], desc['rot'], acc, scale=desc.get('scale', 1.0))
+    elif desc['what'] == 'sequence':
+        check_sequences(desc['shape'], desc['rot'], desc['depth'], acc)
     else:
         check_path(desc['path'], acc)
     return acc
@@ -248,6 +340,7 @@ def run_shard(desc, tier, seed):
 def expected_classes(tier):
     out = ['path/reversed', 'path/cropped/wrap/inside', 'path/cropped/plain/joint', 'path/cropped/plain/inside', 'path/cropped/wrap/joint']
     for k in 'LQCA':
+        out += ['%s/sequence/depth2' % k]
         out += ['%s/reversed' % k, '%s/split' % k, '%s/cropped/interior' % k, '%s/cropped/from0' % k, '%s/cropped/to1' % k]
     return out
 
@@ -255,12 +348,17 @@ def expected_classes(tier):
 def space(tier, seed):
     return {'shapes': list(AB.LINES) + list(AB.QUADS) + list(AB.CUBICS) + list(AB.ARCS), 'rotations': ROTS, 't_alphabet': TS,
             'u_grid': US, 'paths': {k: list(v[0]) + [v[1]] for k, v in all_paths(tier).items()},
+            'operation_sequences': {'ops': [list(o) for o in SEQ_OPS], 'depth': 2 if tier == 'quick' else 4,
+                                    'oracle': 'composed affine parameter map against the original segment'},
             'path_T_alphabet': '0, 1, 0.1, 0.37, 0.5, 0.77, 0.9 and every exact joint value; all ordered pairs (T1 < T0 for closed paths)'}
 
 
 def replay(case):
     acc = core.ReplayAcc()
-    if case['what'] == 'segment':
+    if case['what'] == 'sequence':
+        check_sequences(case['shape'], case['rot'], len(case['ops']), acc, only=case['ops'])
+        acc.vlist = [v for v in acc.vlist if v['case']['ops'] == case['ops']]
+    elif case['what'] == 'segment':
         check_segment(case['shape'], case['rot'], acc, only=case['op'], scale=case.get('scale', 1.0))
         keys = [k for k in ('t', 't0', 't1') if k in case]
         acc.vlist = [v for v in acc.vlist if all(v['case'].get(k) == case[k] for k in keys)]
